@@ -339,3 +339,45 @@ Proof.
   cbv zeta. split; [intros f; split; reflexivity|]. split; [|vm_compute; reflexivity].
   intros H. apply (f_equal (@f_obj _ _ _ _)) in H. vm_compute in H. discriminate H.
 Qed.
+
+(* ---------------------------------------------------------------- round 7: additive regulariser *)
+(* the loss of one mini-batch is error_estimate(batch) + soft constraints (object TV / surface-zero,
+   probe TV, descan TV — a term that depends on the parameters only): the batch-invariance clause
+   for the TOTAL loss and gradient, for every regulariser value *)
+From QV.model Require Import C09_Model_Reg.
+From QV.proof Require Import C09_Proofs_Reg.
+
+Theorem C09_reg_batch_mean_eq_full :
+  forall (N : nat) (I r : Q) (b : nat) (bs : list (list Q)),
+    1 <= b -> 1 <= N -> 1 <= length bs -> (forall c, In c bs -> length c = b) ->
+    (mean_over_reg_batches N I r bs == reg_batch_loss N I r (concat bs))%Q.
+Proof. exact mean_over_reg_batches_eq_full. Qed.
+Print Assumptions C09_reg_batch_mean_eq_full.
+
+Theorem C09_reg_batch_grad_mean_eq_full :
+  forall (N : nat) (I : Q) (rg : list Q) (b : nat) (bss : list (list (list Q))) (j : nat),
+    1 <= b -> 1 <= N -> 1 <= length bss -> (forall gs, In gs bss -> length gs = b) ->
+    (mean_over_reg_batch_grads N I rg bss j == reg_batch_grad N I rg (concat bss) j)%Q.
+Proof. exact mean_over_reg_batch_grads_eq_full. Qed.
+Print Assumptions C09_reg_batch_grad_mean_eq_full.
+
+(* a regulariser weighted by the batch share len(batch)/N is counted 1/m times in the epoch mean,
+   so the invariance statement fails for it *)
+Theorem C09_frac_reg_mean_factor :
+  forall (I r : Q) (b m : nat) (bs : list (list Q)),
+    1 <= b -> 1 <= m -> length bs = m -> (forall c, In c bs -> length c = b) ->
+    (mean_over_frac_reg_batches (m * b) I r bs == batch_loss (m * b) I (concat bs) + r / qn m)%Q.
+Proof. exact frac_reg_mean_factor. Qed.
+Print Assumptions C09_frac_reg_mean_factor.
+
+Theorem C09_frac_reg_batch_mean_refuted : ~ frac_reg_batch_mean_statement.
+Proof. exact frac_reg_batch_mean_refuted. Qed.
+Print Assumptions C09_frac_reg_batch_mean_refuted.
+
+Example C09_nonvacuous_reg :
+  (mean_over_reg_batches 4 (2#1) (7#3) [[1#1; 2#1]; [4#1; 3#1]] == reg_batch_loss 4 (2#1) (7#3) [1#1; 2#1; 4#1; 3#1])%Q
+  /\ (reg_batch_loss 4 (2#1) (7#3) [1#1; 2#1; 4#1; 3#1] == 22#3)%Q
+  /\ (mean_over_frac_reg_batches 4 (2#1) (7#3) [[1#1; 2#1]; [4#1; 3#1]] == 37#6)%Q
+  /\ (mean_over_reg_batch_grads 4 (1#1) [1#2; 1#3] [[[1#1; 5#1]; [2#1; 6#1]]; [[3#1; 7#1]; [4#1; 9#1]]] 1
+      == reg_batch_grad 4 (1#1) [1#2; 1#3] [[1#1; 5#1]; [2#1; 6#1]; [3#1; 7#1]; [4#1; 9#1]] 1)%Q.
+Proof. repeat split; vm_compute; reflexivity. Qed.
